@@ -51,17 +51,19 @@ func init() {
 }
 
 type esApp struct {
-	parent int
-	group  string // "" = mounted on the parent app itself
-	prefix string
-	full   string
-	hasEH  bool
-	mw     bool
-	after  bool
-	grpMw  bool
-	alias  int  // > 0: this node is a second mount of the application object of node alias
-	slash  bool // mounted with a trailing slash in the prefix ("/api/"): the same mount
-	late   bool // mounted only after the application has started and served an error
+	parent  int
+	group   string // "" = mounted on the parent app itself
+	prefix  string
+	full    string
+	hasEH   bool
+	mw      bool
+	after   bool
+	grpMw   bool
+	covered bool // a sub-application is mounted at "/" inside this one (the parent keeps no handler of its own)
+	covers  bool // this node is such a sub-application
+	alias   int  // > 0: this node is a second mount of the application object of node alias
+	slash   bool // mounted with a trailing slash in the prefix ("/api/"): the same mount
+	late    bool // mounted only after the application has started and served an error
 }
 
 type esOp struct {
@@ -179,7 +181,14 @@ func errselMain(s *simrt.Sim, info *harness.RunInfo) {
 		}
 		k := s.Draw(len(alphabet))
 		ok := false
-		for j := 0; j < len(alphabet); j++ {
+		rootMount := false
+		if a.parent != 0 && a.group == "" && !tree[a.parent].hasEH && !tree[a.parent].covered && s.Chance(150) {
+			// mounted at "/" inside a mounted application that configured no handler of its own: the two share
+			// one prefix, and only the inner one has a handler to offer
+			a.prefix, a.full, ok, rootMount = "/", tree[a.parent].full, true, true
+			tree[a.parent].covered = true
+		}
+		for j := 0; j < len(alphabet) && !rootMount; j++ {
 			a.prefix = alphabet[(k+j)%len(alphabet)]
 			a.full = tree[a.parent].full + a.group + a.prefix
 			if !used[a.full] {
@@ -191,7 +200,8 @@ func errselMain(s *simrt.Sim, info *harness.RunInfo) {
 			continue
 		}
 		used[a.full] = true
-		a.hasEH = s.Chance(600)
+		a.hasEH = s.Chance(600) || rootMount
+		a.covers = rootMount
 		a.mw = s.Chance(300)
 		a.after = s.Chance(250)
 		a.grpMw = a.group != "" && s.Chance(400)
@@ -243,6 +253,11 @@ func errselMain(s *simrt.Sim, info *harness.RunInfo) {
 					}
 				}
 			}
+		}
+	}
+	for i := range tree {
+		if tree[i].covered {
+			tree[i].hasEH = false
 		}
 	}
 	for i := range tree {
